@@ -90,6 +90,7 @@ var atoms = map[string]val{
 	"tt()": {k: "B", b: true}, "ff()": {k: "B", b: false},
 	"vl": {k: "L"},
 	// other spellings and sizes of integers: a leading zero is decimal all the same; neighbours beyond 2^53 differ
+	"[1, 2, 3]": {k: "L"}, // the same list as vl, written in the template
 	"010": {k: "I", i: 10}, "9007199254740993": {k: "I", i: 9007199254740993}, "vbig": {k: "I", i: 9007199254740992},
 }
 
@@ -628,7 +629,7 @@ func run(r *eng.Runner) {
 	}
 	at := atomList(false)
 	ptrs := []*Expr{{Atom: "pf"}, {Atom: "pi"}} // a *float64 and a *int from the context
-	ptrs = append(ptrs, &Expr{Atom: "010"}, &Expr{Atom: "9007199254740993"}, &Expr{Atom: "vbig"})
+	ptrs = append(ptrs, &Expr{Atom: "[1, 2, 3]"}, &Expr{Atom: "010"}, &Expr{Atom: "9007199254740993"}, &Expr{Atom: "vbig"})
 	r.Group("ops<=1", "c07.case", "all expression trees with 0..1 operators over 15 binary + 2 unary operators and 22 atoms (incl. a *float64 and a *int, an integer literal with a leading zero, two neighbouring integers beyond 2^53), every spelling/spacing style, printed and in if-position")
 	for n := 0; n <= 1; n++ {
 		trees(n, append(append([]*Expr{}, at...), ptrs...), binOps, unOps, func(e *Expr) bool { emit(r, e, all); return !r.Stopped() })
